@@ -545,8 +545,9 @@ class C29(HistoryProfile):
   def config(self, rng, tier):
     cfg = super(C29, self).config(rng, tier)
     cfg["p_read"] = rng.choice([0.3, 0.5, 0.7])
-    # a minority of runs also evaluates the `group` column of summary tables (known finding F-n)
-    cfg["include_summary_group"] = rng.random() < 0.1
+    # the `group` column of summary tables is evaluated too (it used to poison the auto-remove set:
+    # fixed finding F-n)
+    cfg["include_summary_group"] = True
     return cfg
 
   def next_event(self, sim, g, cfg, st, i):
